@@ -548,16 +548,18 @@ def spans_jobs(Job, cfg=CFG_NDEBUG, tier="quick"):
 
 
 def copyhfe_jobs(Job, cfg=CFG_NDEBUG, tier="quick"):
-    g = ["hfe_opcodes", "is_hfe3_opcode", "copy_hfe"]
+    g = ["hfe_opcodes", "is_hfe3_opcode", "HfeCopyState", "copy_hfe"]
+    # loop 0 of h_fill_tables builds the ghost tables (256 entries: the harness, not the code); both loops of copy_hfe (the
+    # block loop, any number of bytes, and its 8-step bit loop) are closed by loop contracts
+    uw = ["--unwindset", "h_fill_tables.0:258", "--unwinding-assertions"]
+    import native_replay as NR
     return [Job("D_is_hfe3_opcode_%s" % cfg[0], "harness/dfs_copyhfe.c", "h_is_opcode", enforce=["is_hfe3_opcode"], defines=list(cfg[1]), extract=ext(g), tier=tier),
             Job("D_hfe_side_blocks_%s" % cfg[0], "harness/dfs_sideblocks.c", "h_side_blocks", enforce=["hfe_side_blocks"], loops=True,
-                defines=list(cfg[1]), extract=ext(["hfe_block_sizes", "hfe_side_blocks"]), tier=tier, cover=True, solver="portfolio"),
+                defines=list(cfg[1]), extract=ext(["hfe_block_sizes", "HfeCopyState", "hfe_side_blocks"]), tier=tier, cover=True, solver="portfolio", replay=NR.replay_hfe3_opcodes),
             Job("D_copy_hfe_v1_%s" % cfg[0], "harness/dfs_copyhfe.c", "h_copy_hfe", enforce=["copy_hfe"], replace=["is_hfe3_opcode"], loops=True,
-                defines=list(cfg[1]), extract=ext(g), tier=tier, cover=True, solver="portfolio",
-                cbmc=["--unwindset", "h_fill_tables.0:258", "--unwinding-assertions"]),
+                defines=list(cfg[1]), extract=ext(g), tier=tier, cover=True, solver="portfolio", timeout=1800, cbmc=uw),
             Job("D_copy_hfe_v3_opcodes_%s" % cfg[0], "harness/dfs_copyhfe.c", "h_copy_hfe3", enforce=["copy_hfe"], replace=["is_hfe3_opcode"], loops=True,
-                defines=list(cfg[1]), extract=ext(g), tier=tier, cover=True, solver="portfolio", timeout=1200,
-                cbmc=["--unwindset", "h_fill_tables.0:258", "--unwinding-assertions"])]
+                defines=list(cfg[1]), extract=ext(g), tier=tier, cover=True, solver="portfolio", timeout=1800, cbmc=uw, replay=NR.replay_hfe3_opcodes)]
 
 
 NAMES_GROUP = ["byte_to_ascii7", "CatalogEntry_directory", "CatalogEntry_name", "ci_comp", "case_insensitive_less", "case_insensitive_equal", "CatalogEntry_has_name"]
